@@ -4,6 +4,8 @@ function reads; ghost property arrays follow the same renaming (C03)."""
 from run import Ob
 from obligations._mesh import MeshHarness, caps as mcaps
 TK = 'OpenVolumeMesh::TopologyKernel'
+import os
+INLINE = os.environ.get('VERIF_INLINE', '0') == '1'   # inline-array vstd mode: CBMC 6.11 gave unreproducible counterexamples with it (DESIGN 2.15); off
 
 def A(cond, name, n): return '  __CPROVER_assert(%s, "C02.%s.%s");' % (cond, n, name)
 
@@ -31,8 +33,15 @@ def post_for(kind, mode, n):
     out = [A('ovm_exc == 0', 'no_exception', n),
            A('wf(&m)', 'wf_preserved (caches are exactly the inverse of the surviving definitions: C01)', n),
            A('same_modes(&o, &m)', 'modes_unchanged', n)]
-    others = dict(cell=[SAME_V, SAME_E, SAME_F, SAME_VC], face=[SAME_V, SAME_E, SAME_C, SAME_VC],
-                  edge=[SAME_V, SAME_F, SAME_C, SAME_FC], vertex=[SAME_E.replace('map_edges(&o, &m, RHO_NONE, RHO_NONE, 0, -1, 0) && ', ''), SAME_F, SAME_C, SAME_EC, SAME_FC])[kind]
+    FP_E = SAME_E.replace('map_edges(&o, &m, RHO_NONE, RHO_NONE, 0, -1, 0) && ', '')     # flags and props only: definitions are relabelled
+    FP_F = SAME_F.replace('map_faces(&o, &m, RHO_NONE, RHO_NONE, 0, -1, 0) && ', '')
+    FP_C = SAME_C.replace('map_cells(&o, &m, RHO_NONE, RHO_NONE, 0, -1, 0) && ', '')
+    if mode == 'deferred':
+        others = dict(cell=[SAME_V, SAME_E, SAME_F, SAME_VC], face=[SAME_V, SAME_E, SAME_C, SAME_VC],
+                      edge=[SAME_V, SAME_F, SAME_C, SAME_FC], vertex=[SAME_E, SAME_F, SAME_C, SAME_EC, SAME_FC])[kind]
+    else:
+        others = dict(cell=[SAME_V, SAME_E, SAME_F, SAME_VC], face=[SAME_V, SAME_E, FP_C, SAME_VC],
+                      edge=[SAME_V, FP_F, SAME_C, SAME_FC], vertex=[FP_E, SAME_F, SAME_C, SAME_EC, SAME_FC])[kind]
     cnts = ['n_deleted_vertices_', 'n_deleted_edges_', 'n_deleted_faces_', 'n_deleted_cells_']
     if mode == 'deferred':
         out.append(A('ret > h', 'returned_iterator_is_past_the_victim', n))
@@ -84,6 +93,12 @@ REORDER_STUB = {TK + '::reorder_incident_halffaces': '''{
   reorder_contract_effect(self, _eh.idx_);
 }'''}
 
+# per-function caps: kinds the function never reads are kept minimal (cost); every kind it reads or relabels gets 2
+CAPS = {'vertex': dict(v=2, e=2, f=1, c=0, fv=2, cv=1, out=2, inc=2),
+        'edge':   dict(v=2, e=2, f=2, c=0, fv=2, cv=1, out=2, inc=2),
+        'face':   dict(v=1, e=2, f=2, c=2, fv=2, cv=2, out=2, inc=2),
+        'cell':   dict(v=1, e=2, f=2, c=2, fv=2, cv=2, out=2, inc=2)}
+
 MODES = {'deferred': (1, 1), 'shift': (0, 0), 'fast': (0, 1)}
 
 def obligations():
@@ -94,7 +109,7 @@ def obligations():
             for mask in range(1 << len(reads)):
                 on = ''.join(ch for i, ch in enumerate(reads) if mask >> i & 1)
                 n = 'delete_%s_core.%s.bu_%s' % (kind, mode, on or 'none')
-                d = mcaps(v=2, e=2, f=2, c=2, fv=2, cv=2, out=2, inc=2)
+                d = mcaps(**CAPS[kind])
                 d.update(CFG_V=int('v' in on), CFG_E=int('e' in on), CFG_F=int('f' in on), CFG_DEFERRED=dfr, CFG_FAST=fast)
                 pre = '  __CPROVER_assume(!%s(&m, h) && !(%s));' % (K['DEL'], K['used'])
                 if mode == 'fast': pre += '\n  __CPROVER_assume(!%s(&m, %s - 1));' % (K['DEL'], K['N'])
@@ -107,7 +122,7 @@ def obligations():
                 quick = on in ('', reads)     # quick tier: all-off and all-on subsets; thorough: every subset
                 obs.append(Ob(id='C02.' + n, props=['C02', 'C01', 'C03', 'C12'], tu='kernel', tier='B',
                               roots=[TK + '::delete_%s_core' % kind], harness=mh, includes=['wf.h', 'view.h'],
-                              copies=[TK], defines=d, unwind=6, covers=2, timeout=900, quick=quick, stubs=REORDER_STUB,
-                              bounds=dict(vertices=2, edges=2, faces=2, cells=2, face_valence=2, cell_valence=2, incident_list=2),
+                              copies=[TK], defines=d, inline_vec=INLINE, unwind=6, covers=2, timeout=900, quick=quick, stubs=REORDER_STUB,
+                              bounds=dict(zip(('vertices', 'edges', 'faces', 'cells', 'face_valence', 'cell_valence', 'outgoing_list', 'incident_list'), (CAPS[kind][k] for k in ('v', 'e', 'f', 'c', 'fv', 'cv', 'out', 'inc')))),
                               note='delete_%s_core, %s mode, bottom-up kinds enabled: %s; precondition: victim live and not referenced by a live higher entity' % (kind, mode, on or 'none')))
     return obs
